@@ -285,6 +285,15 @@ func rtOracle(args, res string, kindsOnly bool) string {
 		if all {
 			return "the datagram decoder rejects frames that their own types' decoders accept"
 		}
+		// a well-formed value: its encoding has to come back as a packet of its type
+		if allWF(ps) {
+			for _, p := range ps {
+				if t := deviationTag(p); t != "" {
+					return tagged("a well-formed "+kindName(p)+" is marshalled, and the datagram decoder does not return the output as that type", p, tagCCFB, tagSLI)
+				}
+			}
+			return "a well-formed " + kindName(ps[0]) + " (or a later member) is marshalled, and the datagram decoder does not return the output as that type"
+		}
 		// Marshal let a value through that no encoding can hold (C08 lists the limits), and what it wrote is not
 		// returned as a packet of its type
 		for _, p := range ps {
@@ -1103,12 +1112,12 @@ func unitOracle(base, kind, args, res string) string {
 		want := ""
 		switch v := c.(type) {
 		case *rtcp.RunLengthChunk:
-			if v.Type == 0 && v.PacketStatusSymbol < 4 && v.RunLength < 8192 {
+			if v.PacketStatusSymbol < 4 && v.RunLength < 8192 { // the chunk kind is the Go type: the Type field is not consulted
 				w := v.PacketStatusSymbol<<13 | v.RunLength
 				want = okHex([]byte{byte(w >> 8), byte(w)})
 			}
 		case *rtcp.StatusVectorChunk:
-			if v.Type == 1 && v.SymbolSize == 0 && len(v.SymbolList) == 14 {
+			if v.SymbolSize == 0 && len(v.SymbolList) == 14 {
 				w := uint16(0x8000)
 				ok := true
 				for i, s := range v.SymbolList {
@@ -1119,7 +1128,7 @@ func unitOracle(base, kind, args, res string) string {
 					want = okHex([]byte{byte(w >> 8), byte(w)})
 				}
 			}
-			if v.Type == 1 && v.SymbolSize == 1 && len(v.SymbolList) == 7 {
+			if v.SymbolSize == 1 && len(v.SymbolList) == 7 {
 				w := uint16(0xC000)
 				ok := true
 				for i, s := range v.SymbolList {
@@ -1256,6 +1265,32 @@ func specTypeCount(p rtcp.Packet) (pt, count int, ok bool) {
 
 // ccfbDecOracle: the metric blocks of every report block as the library's own wire convention defines them
 // (num_reports field k > 0 stands for k+1 metric blocks, 0 for none): each block decodes on its own
+// ccfbValidLib: b is one CCFB frame whose report blocks tile the packet exactly up to the timestamp, in the library's
+// reading of num_reports (k > 0 stands for k+1 metric blocks), with no block running past sequence number 65535 and
+// none over the 16384-block limit
+func ccfbValidLib(b []byte) bool {
+	if len(b) < 12 || b[0] != 0x8b || b[1] != 205 || countFrames(b) != 1 {
+		return false
+	}
+	off := 8
+	for off < len(b)-4 {
+		if off+8 > len(b)-4 {
+			return false
+		}
+		begin := int(binary.BigEndian.Uint16(b[off+4:]))
+		k := int(binary.BigEndian.Uint16(b[off+6:]))
+		n := 0
+		if k > 0 {
+			n = k + 1
+		}
+		if n > 16384 || (n > 0 && begin+n-1 > 65535) {
+			return false
+		}
+		off += 8 + 2*(n+n%2)
+	}
+	return off == len(b)-4
+}
+
 func ccfbDecOracle(b []byte, tokens string) string {
 	p := getBody(NewR(tokens), "CCFB").(*rtcp.CCFeedbackReport)
 	end := (int(binary.BigEndian.Uint16(b[2:])) + 1) * 4
